@@ -7,6 +7,7 @@ import (
 	"context"
 	"encoding/json"
 	"fmt"
+	"sort"
 
 	"golang.org/x/mod/semver"
 
@@ -166,6 +167,8 @@ func resourceReservationServiceAccount(
 	for secretName := range imagePullSecrets {
 		sa.ImagePullSecrets = append(sa.ImagePullSecrets, v1.LocalObjectReference{Name: secretName})
 	}
+	// map iteration order is random: keep the desired object stable between reconciles
+	sort.Slice(sa.ImagePullSecrets, func(i, j int) bool { return sa.ImagePullSecrets[i].Name < sa.ImagePullSecrets[j].Name })
 
 	return []client.Object{sa}, nil
 }
